@@ -1457,7 +1457,12 @@ class ComponentSpecification(experiment.model.interface.InternalRepresentationAt
                 pattern = re.compile(r'\b' + re.escape(original_reference) + r'\b')
                 arguments = re.sub(pattern, replacement, arguments)
 
-            blueprint_name = self.identification.componentName.rstrip('0123456789')
+            # Only replicas carry a replica-index suffix. Strip exactly that index - a component (or blueprint)
+            # whose own name ends in digits (e.g. "step-1", "gen2") must keep them.
+            blueprint_name = self.identification.componentName
+            replica = self.customAttributes.get('replica')
+            if self.isReplicating and replica is not None and blueprint_name.endswith(str(replica)):
+                blueprint_name = blueprint_name[:-len(str(replica))]
 
             # VV: We need to fetch the executables before they were resolved. We don't want to have to resolve
             #     the executables of archived experiments before generating the memoization hashes of the components
